@@ -167,7 +167,7 @@ def strategy(tier):
         for _ in range(nsolve):
             s = {"trans": draw(st.sampled_from(["N", "T", "H"])),
                  "rhs": draw(rhs_spec(allow_cplx, solver != "cg")),
-                 "x0": draw(st.sampled_from(["none", "none", "rand", "exact", "zero"]))}
+                 "x0": draw(st.sampled_from(["none", "none", "rand", "exact", "zero", "exact_some"]))}
             solves.append(s)
         c["solves"] = solves
         return c
@@ -346,6 +346,8 @@ def check_case(case):
                 xe = np.linalg.solve(opA, b).astype(rdt)
                 pert = rand_unit(rng, b.shape, rdt.kind == "c").astype(rdt)
                 x0 = xe + pert * (np.linalg.norm(xe, axis=0) / np.maximum(np.linalg.norm(pert, axis=0), 1e-300))
+                if s["x0"] == "exact_some" and b.ndim == 2 and b.shape[1] >= 2:
+                    x0[:, ::2] = xe[:, ::2]     # the guess is already exact for some of the right-hand sides only
         prepared.append((tr, opA, b, rdt, x0))
 
     # ---- solver object ------------------------------------------------------------------------------------
